@@ -86,10 +86,22 @@ def run(ctx):
     # ---- 1b. sequences of writes through ONE protocol object: what a frame looks like on the wire does not depend on
     # what was written before (a retransmission carries a fresh ackNum; frames of several kinds alternate)
     rng0 = ctx.rng
+    import types as _types
     for _ in range(ctx.n(400, 4000)):
         p, log = ashlib.make_proto()
+        # ... nor on what kind of port the transport sits on: a serial object that advertises hardware flow control, software flow
+        # control, neither - or no serial object at all (a socket); the reserved bytes are escaped all the same
+        port = rng0.choice(["none", "none", "rtscts", "xonxoff", "neither"])
+        ctx.count("port:" + port)
+        if port != "none":
+            tr = ashlib.Transport(log)
+            tr.serial = _types.SimpleNamespace(rtscts=port == "rtscts", xonxoff=port == "xonxoff", dsrdtr=False, port="/dev/ttyUSB0", baudrate=115200)
+            try:
+                p.connection_made(tr)
+            except Exception:  # noqa: BLE001
+                pass
         frm = rng0.randrange(8)
-        pay = bytes(rng0.choice([0x7E, 0x7D, 0x11, 0x00, 0xFF, rng0.getrandbits(8)]) for _ in range(rng0.randint(0, 6)))
+        pay = bytes(rng0.choice([0x7E, 0x7D, 0x11, 0x13, 0x18, 0x1A, 0x00, 0xFF, rng0.getrandbits(8)]) for _ in range(rng0.randint(0, 6)))
         seq = []
         for k in range(rng0.randint(2, 6)):
             t = rng0.random()
